@@ -10,7 +10,12 @@ def run(prog, rep, tier):
                   "zw_value_dwarf_machine(zw_value_elfsym_dwarf(&val)) of the same value); Z1-elf: for the generic and every per-machine STT/STB "
                   "domain class and STV, each value its `show` switch renders is a vocabulary word registered with that value in the domain of that "
                   "very machine.")
-    rep.not_decided = "that every symbol-table entry is yielded exactly once, in table order, numbered from zero, with the stored name/value/size."
+    rep.clause += (" W3: symbol_producer (constructor, next_module, next) and the module iterator it walks, interpreted from their source against "
+                   "an abstract libdwfl (module lists with 0-3 symbols per table, up to three modules, in every order), yield every table entry "
+                   "exactly once, in module and table order, numbered 0,1,2,..., each with the index, name and GElf_Sym that libdwfl returned "
+                   "for that very entry, raise no error on readable tables and stay exhausted afterwards.")
+    rep.not_decided = "how libdwfl itself enumerates modules and tables; the rendering of name/value/size by the CLI."
+    apply(rep, "W3", "every symbol-table entry exactly once, in order, numbered from zero (source evaluation of symbol_producer on abstract module tables)", r_elf.w3(prog, tier), 1)
     apply(rep, "W2b", "ELF-domain constants built from symbol fields go through the matching extraction macro", r_elf.w2b(prog), 5)
     apply(rep, "W2", "GELF_ST_* macro paired with its domain and the symbol's machine", r_elf.w2(prog), 6)
     import r_pure
